@@ -12,7 +12,7 @@ from ..engine import Finding
 
 ID = 'C15'
 TITLE = 'tree flatten/rebuild are inverse; tree_update is a non-destructive deep merge'
-LEAN_FILES = ['Basic', 'USet', 'Tree', 'TreeHeap', 'TreeDriver', 'USetLemmas', 'TreeLemmas', 'TreeMerge', 'TreeHeapLemmas', 'C15']
+LEAN_FILES = ['Basic', 'USet', 'Tree', 'TreeHeap', 'TreeDriver', 'USetLemmas', 'TreeLemmas', 'TreeMerge', 'TreeHeapLemmas', 'TreeHeapAbs', 'C15']
 RULE = 'distinct protocol lines on non-empty trees on which the implementation returned a value (or the KeyError/TypeError/ValueError the model predicts)'
 TRUSTED = ['correspondence harness (pv.engine, pv.proto), generators and deep snapshots of pv.props.c15',
            'Lean driver parser/printer (PygModel/Basic.lean, TreeDriver.lean)']
